@@ -39,6 +39,10 @@ _LEAF = r'(\["not", )?\["un", "[a-z]+", \[120\], \[("lit"|"list"), .*?\]\]\]?'
 BOUNDS_RE = r'^\{"op": "Derived", "c": "a", "q": \[\["where", (\["not", )?\["(and|or)", ' + _LEAF + ', ' + _LEAF + r'\]\]?\]\], "js"'
 
 
+# a single membership test on the field x (any window)
+IN_RE = r'^\{"op": "Derived", "c": "a", "q": \[\["where", \["un", "in", \[120\]'
+
+
 def AUX(name, aux, n, **kw):
     d = {"kind": "aux", "name": name, "aux": aux, "n": n}
     d.update(kw)
@@ -172,6 +176,8 @@ PLANS["C09"] = {
         T("derived", "derived", (60, 1500), ["InvC09"]),
         T("ties", "ties", (24, 500), ["InvC09"], chunk=6),
         EDG("edges", ["InvC09"], ops=["Derived", "ListIndexes", "ListCollections"]),
+        # every membership test over two literals, every window, stopped after 1 and 2 visits, on content-rich states
+        EDG("edges-in", ["InvC09"], ops=["Derived"], rich_states=40, states=(3, 30), reads=(0, 0), seed_off=11, event_re=IN_RE),
     ],
 }
 
@@ -211,6 +217,8 @@ PLANS["C20"] = {
         T("closed", "closed", (20, 400), ["InvNoPanic"], backends="bolt,badger"),
         T("rich", "rich", (20, 400), ["InvNoPanic"]),
         T("extremes", "extremes", (10, 200), ["InvNoPanic"]),
+        # export / import / create-by-query histories (also on names that exist), closed at the end
+        T("io", "io", (20, 400), ["InvNoPanic"], backends="bolt,badger"),
         EDG("edges", ["InvNoPanic"], states=(20, 0), reads=(30, 200), writes=(10, 40)),
         # the public query / index / document APIs called directly
         AUX("satisfy", "satisfy", (250, 5000), invariants=["InvAuxNoPanic"]),
@@ -298,7 +306,9 @@ PLANS["C10"] = {
                                  "numbers within 2^53 and times from 1970 on (flags keydom in the trace)"],
     "stages": [
         LAWS("values"),
-        AUX("values", "values", (64, 130), reps=(3, 9), chunk=1, heap="8g"),
+        AUX("values", "values", (64, 130), reps=(4, 12), chunk=1, heap="8g"),
+        # times up to year 9999 (beyond what 64 bits of nanoseconds hold) in indexed, filtered and sorted fields
+        T("fartimes", "fartimes", (12, 200), ["InvC01", "InvC08"]),
         T("extremes", "extremes", (12, 200), ["InvC01", "InvC08"]),
         T("floats", "floats", (12, 200), ["InvC01", "InvC08"]),
     ],
